@@ -292,7 +292,6 @@ theorem execute_samples_are_image (d : DS) (lib : Lib) (r : Req) (xs : Matrix)
     split at h
     · simp at h
     · rename_i lib1 us hg
-      simp only [hg]
       simp only [Except.ok.injEq] at h
       exact ⟨h, by rw [← h]; rfl⟩
 
@@ -318,6 +317,39 @@ theorem compute_doe_in_bounds (d : DS) (hb : boundedOk d = true) (lib : Lib) (r 
   obtain ⟨row, hrow, rfl⟩ := List.mem_map.mp hx
   obtain ⟨h1, h2⟩ := hs eff us hm row hrow
   exact untransform_in_bounds d hb row h1 h2
+
+/-- **Spaces built with `add_variable`** (C02 model) from the empty space, with finite bounds, are
+    bounded design spaces in the sense of the theorems above: `add_variable` itself enforces
+    `lb ≤ ub`, equal lengths and integral bounds of integer variables. -/
+theorem bounded_of_add_variable (tol : Rat) (vs : List Var) (d : DS)
+    (hfin : ∀ v ∈ vs, ∀ b ∈ v.lb ++ v.ub, b.isSome = true) (h : DS.empty.extend tol vs = some d) :
+    boundedOk d = true :=
+  boundedOk_of_adds tol vs hfin DS.empty d boundedOk_empty h
+
+/-- **The guard of the pipeline** (`__check_unnormalization_capability`): a `compute_doe` that does
+    not fail with "unbounded" was called on a space all of whose components have two finite bounds
+    (for the algorithms that sample the unit hypercube). -/
+theorem success_implies_finite_bounds (d : DS) (lib : Lib) (r : Req) (xs : Matrix)
+    (hu : r.unitSampling = false) (hh : r.useUnitHypercube = true)
+    (h : (computeDoe d lib r).result = .ok xs) :
+    ∀ c ∈ comps d, c.2.1.isSome = true ∧ c.2.2.isSome = true := by
+  have hd1 : enter d (!r.unitSampling && !d.intNorm) = d.setIntNorm true := by
+    rw [hu]; simpa using enter_eq d
+  have h' : (computeBody (d.setIntNorm true) lib r).2 = .ok xs := by
+    have : (computeDoe d lib r).result = (computeBody (enter d (!r.unitSampling && !d.intNorm)) lib r).2 := rfl
+    rw [this, hd1] at h
+    exact h
+  have hc : unboundedComponents (d.setIntNorm true) = [] := by
+    by_contra hne
+    unfold computeBody at h'
+    have : (!r.unitSampling && r.useUnitHypercube && !(unboundedComponents (d.setIntNorm true)).isEmpty) = true := by
+      rw [hu, hh]
+      simp only [Bool.not_false, Bool.and_self, Bool.true_and, Bool.not_eq_true', List.isEmpty_eq_false_iff]
+      exact hne
+    simp [this] at h'
+  have hcomps : comps (d.setIntNorm true) = comps d := rfl
+  rw [← hcomps]
+  exact (capability_check_iff _).mp hc
 
 /-! ## 4. Seeds -/
 
@@ -731,6 +763,11 @@ example : (computeDoe exDS {} { exReq with settingsOk := false }).ds.intNorm = f
 example : (computeDoe { vars := [⟨"a", false, [none], [some 5], none⟩] } {} exReq).result = .error .unbounded := by
   decide +kernel
 example : (preRun exDS {} { exReq with seed := some 4 }).lib.samples = [[-3, 2, 2, 1], [-1, 0, 1, 1/2]] := by
+  decide +kernel
+example : (DS.empty.extend 0 exDS.vars).map boundedOk = some true := by decide +kernel
+example : ∀ c ∈ comps exDS, c.2.1.isSome = true ∧ c.2.2.isSome = true :=
+  success_implies_finite_bounds exDS {} exReq [[-3, 2, 2, 1], [-1, 6, 1, 1/2]] rfl rfl (by decide +kernel)
+example : unboundedComponents { vars := [⟨"a", false, [none, some 0], [some 5, some 1], none⟩] } = [0] := by
   decide +kernel
 example : firstOcc [[1, 2], [3, 4], [1, 2]] = [[1, 2], [3, 4]] := by decide +kernel
 example : (Seeder.run {} [none, none, some 7, none, some 7, some 2]).2 = [1, 2, 7, 4, 7, 2] := by decide +kernel
